@@ -38,7 +38,8 @@ def worker(args, scratch):
         klist = []
         for i in range(args["generations"]):
             guid = "dddddddd-%04x-4000-8000-%012x" % (args["shard"], i)
-            keys[guid] = "%064x" % r.getrandbits(256)
+            bits = r.choice([128, 256, 256, 512, 384])        # the key is a hex string of whatever length the host chose
+            keys[guid] = "%0*x" % (bits // 4, r.getrandbits(bits))
             klist.append({"authorizationScheme": "Azure-HMAC-SHA256", "guid": guid, "incarnationId": i, "issued": "2024-01-01T00:00:00Z", "key": keys[guid]})
         w.key(klist[0]["guid"], klist[0]["key"])
         if args["own_calls"]:
@@ -171,11 +172,14 @@ def local_key_worker(args, scratch):
     ws.version = "1.0"; ws.state_v1 = "Wireserver"
     k1, k2 = ws.new_key(), ws.new_key()
     ws.latched = k2["guid"]; ws.latched_history.append(k2["guid"])
-    variant = args["shard"] % 3
+    variant = args["shard"] % 4
     if variant == 0:      # file named after the latched key, content of another key
         open(os.path.join(key_dir, k2["guid"] + ".key"), "w").write(_json.dumps(k1))
     elif variant == 1:    # same, with the guid written in upper case inside the document
         d = dict(k1); d["guid"] = d["guid"].upper()
+        open(os.path.join(key_dir, k2["guid"] + ".key"), "w").write(_json.dumps(d))
+    elif variant == 3:    # the latched key's file holds a key value that is not hex (damaged file): nothing can be signed with it
+        d = dict(k2); d["key"] = "zz" + d["key"][2:]
         open(os.path.join(key_dir, k2["guid"] + ".key"), "w").write(_json.dumps(d))
     else:                 # control: the right document
         open(os.path.join(key_dir, k2["guid"] + ".key"), "w").write(_json.dumps(k2))
@@ -207,6 +211,9 @@ def local_key_worker(args, scratch):
                     res["violations"].append(["own-guid-of-one-key-mac-of-another" if other else "own-mac-under-no-known-key",
                                               {"head": u.raw_head.decode("latin-1"), "mac_verifies_under": other, "local_store": "file named after the latched key holds another key document" if variant < 2 else "control"}])
                     break
+                if verdict in ("bad-format", "multiple"):
+                    res["violations"].append(["own-%s" % verdict, {"head": u.raw_head.decode("latin-1"), "local_store_variant": variant}])
+                    break
         res["nontrivial"].append("local-store-variant-%d" % variant)
         for p in sh.panics():
             res["violations"].append(["panic:%s" % p.get("location"), p])
@@ -229,7 +236,7 @@ def run(tier, rep):
                      "delay_permille": 500, "delay_us": 1500, "own_calls": i % 3 != 2, "reject_permille": 300 if i % 4 in (1, 2) else 0})
     for res in sandbox.run_many("vf.props.c10", "worker", args, workers=shards, timeout=1500 if tier == "quick" else 9000):
         rep.merge_worker(res)
-    for res in sandbox.run_many("vf.props.c10", "local_key_worker", [{"shard": i, "tier": tier} for i in range(3 if tier == "quick" else 12)], workers=3, timeout=600 if tier == "quick" else 3600):
+    for res in sandbox.run_many("vf.props.c10", "local_key_worker", [{"shard": i, "tier": tier} for i in range(4 if tier == "quick" else 12)], workers=4, timeout=600 if tier == "quick" else 3600):
         rep.merge_worker(res)
     if rep.coverage.get("proxied_requests_straddling_a_rotation", 0) < 300 and not rep.violations:
         rep.inconclusive.append("fewer than 300 requests straddled a rotation")
